@@ -149,8 +149,8 @@ impl Property for HistProp {
     }
     fn cases(&self, tier: Tier) -> u64 {
         match tier {
-            Tier::Quick => 80_000,
-            Tier::Thorough => 1_500_000,
+            Tier::Quick => 600_000,
+            Tier::Thorough => 10_000_000,
         }
     }
     fn floors(&self, _tier: Tier) -> Vec<(&'static str, f64)> {
@@ -606,8 +606,8 @@ impl Property for StopProp {
     }
     fn cases(&self, tier: Tier) -> u64 {
         match tier {
-            Tier::Quick => 8_000,
-            Tier::Thorough => 150_000,
+            Tier::Quick => 25_000,
+            Tier::Thorough => 400_000,
         }
     }
     fn floors(&self, _tier: Tier) -> Vec<(&'static str, f64)> {
